@@ -144,7 +144,9 @@ class Interp:
             if r:
                 out.update(r)
             return out
-        except Exception as e:  # raise / no-raise only
+        except (KeyboardInterrupt, SystemExit):
+            raise
+        except BaseException as e:  # raise / no-raise only (computegraph.GraphRunError derives from BaseException)
             return {"ok": False, "err": type(e).__name__ + ": " + str(e)[:200]}
 
     def op_model(self, op):
